@@ -217,9 +217,9 @@ def b3_word_index(F, R, cam_ids):
     for b in F.bodies.values():
         if not F.handwritten(b) or b.get('impl_trait') != 'transport::pci::bus::ConfigurationAccess' or b['name'] not in ('read_word', 'write_word'):
             continue
-        if not any(bl['term']['k'] == 'call' and bl['term'].get('fn') in cam_ids for bl in b['blocks']):
-            continue
         sg = supergraph(F, b['id'], opaque=lambda t, bb: bb['id'] in cam_ids, tag='b3w')
+        if not any(True for _ in sg.calls(lambda d: d.get('fn') in cam_ids)):
+            continue
         S = sg.sym
         where = fn_site(F, b['id'])
         bad = None
